@@ -2,7 +2,7 @@
 from mirsym.harness import Check
 from .C01 import ASSUME
 
-QUICK = ["seq2", "two_if", "catch_act", "msg_set", "par_block", "seq_block", "env_flow", "if_else_last", "step_if", "params_template", "two_scope_vars", "tmo_reload", "no_ids"]
+QUICK = ["seq2", "two_if", "catch_act", "msg_set", "par_block", "seq_block", "env_flow", "if_else_last", "step_if", "params_template", "two_scope_vars", "tmo_reload", "no_ids", "catch_reload"]
 
 
 def main(tier, seed):
